@@ -784,14 +784,23 @@ func (c *updater) buildBackendOAuth(d *backData) {
 }
 
 func (c *updater) findBackend(namespace, uriPrefix string) *hatypes.HostBackend {
+	// more than one host of the namespace can declare the path, and the
+	// iteration order of the map cannot be the one that chooses between them
+	var hostname string
+	var backend *hatypes.HostBackend
 	for _, host := range c.haproxy.Hosts().Items() {
+		if backend != nil && host.Hostname > hostname {
+			continue
+		}
 		for _, path := range host.Paths {
 			if strings.TrimRight(path.Path(), "/") == uriPrefix && path.Backend.Namespace == namespace {
-				return &path.Backend
+				hostname = host.Hostname
+				backend = &path.Backend
+				break
 			}
 		}
 	}
-	return nil
+	return backend
 }
 
 var validDomainRegex = regexp.MustCompile(`^([A-Za-z0-9-]{1,63}\.)+[A-Za-z]{2,6}$`)
